@@ -11,6 +11,9 @@ use tiny_http_verif_rt::sync::atomic::{AtomicUsize, Ordering};
 use tiny_http_verif_rt::sync::{Arc, Condvar, Mutex};
 #[cfg(tiny_http_verif)]
 use tiny_http_verif_rt::thread;
+#[cfg(tiny_http_verif)]
+#[allow(unused_imports)]
+use tiny_http_verif_rt::sync::{atomic::*, *};
 use std::time::Duration;
 
 /// Manages a collection of threads.
